@@ -33,6 +33,11 @@ def rule_P1(ctx):
     for a in own_nodes(fn):
         if isinstance(a, ast.Assign) and isinstance(a.value, ast.DictComp) and len(a.targets) == 1 and isinstance(a.targets[0], ast.Name):
             dicts[a.targets[0].id] = a.value
+        elif isinstance(a, ast.Assign) and len(a.targets) == 1 and isinstance(a.targets[0], ast.Name) and isinstance(a.value, ast.Call) \
+                and norm(a.value.func) == "dict.fromkeys" and len(a.value.args) == 2 and not a.value.keywords:
+            # dict.fromkeys(K, c) is {k: c for k in K}
+            dicts[a.targets[0].id] = ast.DictComp(key=ast.Name(id="_k", ctx=ast.Load()), value=a.value.args[1],
+                                                  generators=[ast.comprehension(target=ast.Name(id="_k", ctx=ast.Store()), iter=a.value.args[0], ifs=[], is_async=0)])
     sd = [k for k, v in dicts.items() if norm(v.key).endswith(".export_name") and norm(v.generators[0].iter) == samples]
     mk = [k for k, v in dicts.items() if sd and norm(v.generators[0].iter) in (sd[0], sd[0] + ".keys()") and isinstance(v.value, ast.Constant) and v.value.value is False]
     ok = len(sd) == 1 and len(mk) == 1
@@ -235,6 +240,8 @@ def rule_P2(ctx):
                 return False
             if " not in " in text:
                 return False  # the partner exists: membership tests succeed
+            if text.endswith(" is None") or text.endswith(" == None"):
+                return False  # the regex matched, the partner was found
             return True
 
         mi = Mini(ctx, fn._module, env={"match.group(3)": g3, "match.group(1)": "STEM", "match.group(2)": "-", "match.groups()": ("STEM", "-", g3), lv: Sym("VISITED"),
